@@ -11,8 +11,10 @@ use scratchstack_aws_signature::errors::ServiceError;
 use serde_json::{json, Value};
 use std::panic::{catch_unwind, AssertUnwindSafe};
 
-pub const SEGMENTS: [&str; 16] =
-    ["a", "b", ".", "..", "%2e", "%2E%2e", ".%2E", "", "%2F", "a%20b", "+", "~", "%7e", "*", "%zz", "%4"];
+pub const SEGMENTS: [&str; 20] = [
+    "a", "b", ".", "..", "%2e", "%2E%2e", ".%2E", "", "%2F", "a%20b", "+", "~", "%7e", "*", "%zz", "%4", "...", "%252e", "%2e%2e%2f",
+    "..%2F..",
+];
 
 pub const KNOWN_PLUS: &str = "path-plus-as-space";
 
